@@ -474,14 +474,14 @@ def structure_from_desc(sym, ferm, td):
 # ------------------------------------------------------------------------------------------------
 
 def full_unfuse(y):
-    """Undo every fusion layer (meta and hard)."""
-    for _ in range(12):
+    """Undo every fusion layer (meta and hard product fusions); legs produced by block() ('s') stay."""
+    for _ in range(16):
         if y.isdiag or y.ndim == 0:
             return y
-        z = y.unfuse_legs(axes=tuple(range(y.ndim)))
-        if z.ndim == y.ndim and z.ndim_n == y.ndim_n:
-            return z
-        y = z
+        axes = tuple(i for i, l in enumerate(y.get_legs()) if l.history()[0] in 'pm')
+        if not axes:
+            return y
+        y = y.unfuse_legs(axes=axes)
     return y
 
 
@@ -500,17 +500,23 @@ def observe(y, mt, config):
     if z.ndim_n != len(mt.legs):
         raise ObserveError(f'rank after unfusing {z.ndim_n} != model {len(mt.legs)}')
     zl = z.get_legs(native=True)
-    legs = {}
+    legs, manual = {}, []
     for i, (l, ml) in enumerate(zip(zl, mt.legs)):
         if l.s != ml.s:
             raise ObserveError(f'leg {i}: signature {l.s} != model {ml.s}')
-        if l.is_fused():
+        if l.history()[0] in 'pm':
             raise ObserveError(f'leg {i} still fused after full unfusion: {l.history()}')
         for t, D in zip(l.t, l.D):
             if ml.tD.get(t) != D:
                 raise ObserveError(f'leg {i}: sector {t}:{D} not inside model table {ml.tD}')
-        legs[i] = mk_leg(config, ml.s, ml.tD)
-    return z.to_numpy(legs=legs, native=True)
+        if l.history() == 'o':
+            legs[i] = mk_leg(config, ml.s, ml.tD)
+        else:   # leg produced by block(): embedded on the model side (a plain Leg cannot describe its history)
+            manual.append((i, ELeg(l.s, dict(zip(l.t, l.D))), ml))
+    A = z.to_numpy(legs=legs, native=True)
+    for i, src, dst in manual:
+        A = embed_axis(A, i, src, dst)
+    return A
 
 
 class ObserveError(Exception):
